@@ -291,7 +291,7 @@ def _port_attrs(port):
 
 def _ns_attrs(ns):
     return {'required': ns.required, 'valid_type': ns.valid_type, 'help': ns.help, 'validator': ns.validator, 'dynamic': ns.dynamic,
-            'populate_defaults': ns.populate_defaults, 'default': ns.default, 'name': ns.name}
+            'populate_defaults': ns.populate_defaults, 'default': _plain_value(ns.default), 'name': ns.name}
 
 
 def _ns_attrs_of(desc, name):
@@ -607,8 +607,12 @@ def run_case(case):
 
 def _mutate(ns, tag='src'):
     """Change every attribute of every port / namespace below ``ns``, add a port and delete one at each level."""
+    if isinstance(ns.default, dict):
+        ns.default['changed_in_place_by'] = tag  # (the default of the namespace the exposure copied from / into: a mapping of its own)
     for name, port in list(ns.items()):
         port.help = '%s-mutated' % tag
+        if isinstance(port, PortNamespace) and isinstance(port.default, dict):
+            port.default['changed_in_place_by'] = tag
         if hasattr(port, 'tags'):
             port.tags.append(tag)  # (a setting that is changed in place, not assigned)
         port.required = not port.required
